@@ -78,7 +78,7 @@ func (Engine) Describe(prop string) core.Description {
 			"O2 cannot see a write that stores an identical value into the same location, nor state hidden inside a closure (NewFunc's bound zero Wrapper): O1 and O3 cover those",
 			"yield points are function entries and loop iterations of the package (instrumented scratch copy); preemption inside a single statement is not simulated but would be reported by O1 when the accesses conflict",
 		},
-		Probes: []string{"policy-uniform", "policy-pct", "policy-round-robin", "policy-run-to-completion", "tasks>=8", "op-NewURLFromRaw", "op-UnmarshalDocument", "op-UnmarshalPartialResource", "op-New-Set-Get", "op-MarshalDocument", "op-GetType", "op-HasType", "op-Check", "op-Rels", "context-switch-inside-Rels", "race-log-checked"},
+		Probes: []string{"policy-uniform", "policy-pct", "policy-round-robin", "policy-run-to-completion", "tasks>=8", "op-NewURLFromRaw", "op-UnmarshalDocument", "op-UnmarshalPartialResource", "op-New-Set-Get", "op-MarshalDocument", "op-GetType", "op-HasType", "op-Check", "op-Rels", "op-Wrap-own-struct", "context-switch-inside-Rels", "race-log-checked", "schema-with-dangling-target"},
 	}
 }
 
@@ -299,7 +299,7 @@ func drawOps(t *core.Tape, spec *world.SchemaSpec, twin *jsonapi.Schema) []op {
 	}
 
 	for i := 0; i < n; i++ {
-		switch k := t.Draw(9); k {
+		switch k := t.Draw(10); k {
 		case 0:
 			ds := world.DrawDoc(t, spec, world.DocOptions{MaxPrimary: 1, MaxIncluded: 0})
 			raw := ds.RawURL(nil)
@@ -350,7 +350,10 @@ func drawOps(t *core.Tape, spec *world.SchemaSpec, twin *jsonapi.Schema) []op {
 			ts := spec.Types[t.Draw(len(spec.Types))]
 			rs := world.DrawResSpec(t, ts, world.PlainIDs[t.Draw(len(world.PlainIDs))])
 
-			ops = append(ops, op{"New-Set-Get", fmt.Sprintf("GetType(%q).New() + Set/Get", ts.Name), func(s *jsonapi.Schema) string {
+			other := spec.Types[t.Draw(len(spec.Types))].Name
+			retype := t.Bool(1, 3)
+
+			ops = append(ops, op{"New-Set-Get", fmt.Sprintf("GetType(%q).New() + Set/Get (retype to %q: %v)", ts.Name, other, retype), func(s *jsonapi.Schema) string {
 				typ := s.GetType(ts.Name)
 				r := typ.New()
 				r.Set("id", rs.ID)
@@ -359,7 +362,16 @@ func drawOps(t *core.Tape, spec *world.SchemaSpec, twin *jsonapi.Schema) []op {
 					r.Set(f, world.CloneValue(rs.Vals[f]))
 				}
 
-				return renderRes(r)
+				out := renderRes(r)
+
+				// the task's own soft resource may be given another type of the schema
+				if sr, ok := r.(*jsonapi.SoftResource); ok && retype {
+					tb := s.GetType(other)
+					sr.SetType(&tb)
+					out += " | retyped: " + renderRes(sr)
+				}
+
+				return out
 			}})
 		case 4:
 			ds := world.DrawDoc(t, spec, world.DocOptions{MaxPrimary: 3, MaxIncluded: 2, DistinctIncl: true, Errors: true})
@@ -404,6 +416,24 @@ func drawOps(t *core.Tape, spec *world.SchemaSpec, twin *jsonapi.Schema) []op {
 
 				return fmt.Sprintf("%d errors %q", len(errs), msgs)
 			}})
+		case 8:
+			if t.Bool(1, 2) {
+				// a struct type of the task's own that no schema has seen: wrap it and
+				// marshal it (the type is created here; it is wrapped for the first time
+				// by the task)
+				fts := &world.TypeSpec{Name: fmt.Sprintf("own%d", t.Draw(1<<30)), Struct: true, Attrs: []world.AttrSpec{{Name: "v", Kind: t.Range(1, 14)}, {Name: "w", Kind: world.KBytes, Nullable: true}}}
+				frs := world.DrawResSpec(t, fts, "o1")
+				_ = fts.GoStruct()
+
+				ops = append(ops, op{"Wrap-own-struct", fmt.Sprintf("Wrap(own struct %q) + MarshalResource", fts.Name), func(s *jsonapi.Schema) string {
+					w := frs.Wrapped()
+					return string(jsonapi.MarshalResource(w, "/p", []string{"v", "w"}, nil)) + " " + renderRes(w.Copy())
+				}})
+
+				continue
+			}
+
+			fallthrough
 		default:
 			ops = append(ops, op{"Rels", "Rels()", func(s *jsonapi.Schema) string {
 				var sb strings.Builder
